@@ -656,7 +656,7 @@ func c03Wordlists(c *Ctx) {
 		for _, blk := range sf.Blocks {
 			for _, ins := range blk.Instrs {
 				if st, isSt := ins.(*ssa.Store); isSt {
-					if g, isG := st.Addr.(*ssa.Global); isG && g.Name() == "wordList" {
+					if g, isG := st.Addr.(*ssa.Global); isG && g == c.gvar("pkg/bip39", "wordList") {
 						t := sb.Of(st.Val, st)
 						_, ok = ana.Match("call<dynamic>(ext#0(lookup(load(global<repo/pkg/bip39.wordLists>), p0)))", t)
 						if !ok {
